@@ -393,6 +393,11 @@ func (e *effectCtx) call(info *types.Info, call *ast.CallExpr) []string {
 		defer func() { e.depth-- }()
 		d := e.p.FuncDecl(cal)
 		if d != nil && d.Body != nil {
+			// with the arguments substituted for the helper's parameters where that is possible …
+			if toks, ok := e.inlineHelper(cal, d, info, call); ok {
+				return toks
+			}
+			// … otherwise under the helper's own parameter names
 			e.addParams(cal)
 			return e.stmts(e.p.Pkgs[core.Rel(cal.Pkg())].TypesInfo, d.Body.List)
 		}
